@@ -116,7 +116,8 @@ func(in *@Type) DeepCopyInto(out *@Type) {
 				DeepCopyIntoName: "DeepCopyInto",
 				DeepCopyName:     "DeepCopy",
 				OnLocalDep: func(named *types.Named) {
-					defers = append(defers, named)
+					// an instantiated generic type shares the methods of its origin
+					defers = append(defers, named.Origin())
 				},
 			},
 		})
